@@ -173,6 +173,10 @@ impl EventParser {
                 }
                 Some(name)
             }
+            // arrays and slices, in the spelling the other sites hand to the resolver
+            Type::Array(type_array) => Some(format!("[{}; _]", self.type_text(&type_array.elem)?)),
+            Type::Slice(type_slice) => Some(format!("[{}]", self.type_text(&type_slice.elem)?)),
+            Type::Paren(type_paren) => self.type_text(&type_paren.elem),
             _ => None,
         }
     }
@@ -837,11 +841,21 @@ impl EventParser {
             // Literal values
             Expr::Lit(lit) => match &lit.lit {
                 Lit::Str(_) => "String".to_string(),
+                // a suffixed literal says its type (5u64, 0.5f32): a type mapping may name it
+                Lit::Int(int) if !int.suffix().is_empty() => int.suffix().to_string(),
+                Lit::Float(float) if !float.suffix().is_empty() => float.suffix().to_string(),
                 Lit::Int(_) => "i32".to_string(),
                 Lit::Float(_) => "f64".to_string(),
                 Lit::Bool(_) => "bool".to_string(),
                 _ => "unknown".to_string(),
             },
+            // A negative literal: -1, -0.5
+            Expr::Unary(unary)
+                if matches!(unary.op, syn::UnOp::Neg(_))
+                    && matches!(unary.expr.as_ref(), Expr::Lit(_)) =>
+            {
+                self.infer_payload_type(&unary.expr, symbols)
+            }
             // Clone call: var.clone()
             Expr::MethodCall(method_call) => {
                 let method_name = method_call.method.to_string();
